@@ -43,6 +43,7 @@ def obs(name, body, props, fns, sizes):
 
 
 obs("obs_get_mut", "get_mut", ["C01", "C13", "C14", "C04"], ["PrefixMap::get_mut"], ((3, "quick", 40), (4, "thorough", 150)))
+obs("entry_obs", "entry_obs", ["C01", "C18", "C04"], ["PrefixMap::entry", "Entry::{get,key}", "OccupiedEntry::{key,get}", "VacantEntry::key", "Table::get_direction_for_insert"], ((3, "quick", 40),))
 obs("obs_lpm", "lpm", ["C02", "C18"], ["PrefixMap::get_lpm", "PrefixMap::get_lpm_prefix", "Node::prefix_value"], ((3, "quick", 60), (4, "thorough", 200)))
 obs("obs_lpm_mut", "lpm_mut", ["C02", "C13", "C14"], ["PrefixMap::get_lpm_mut", "Node::prefix_value_mut"], ((3, "quick", 60), (4, "thorough", 200)))
 obs("obs_spm", "spm", ["C09", "C18"], ["PrefixMap::get_spm", "PrefixMap::get_spm_prefix"], ((3, "quick", 60), (4, "thorough", 200)))
@@ -307,7 +308,7 @@ H[:] = [x for x in H if not (x["name"].startswith("union_step_") and True)]
 # ------------------------------------------------------------------ quick tier: curated per property
 # (the thorough tier of a property runs every harness that lists it)
 QUICK = {
-    "C01": ["obs_get_n3", "insert_ret_n2", "remove_ret_n3", "rkt_ret_n3", "clear_n3", "entry_top0_ret_n2", "entry_handle1_ret_n2", "hist2_1"],
+    "C01": ["obs_get_n3", "entry_obs_n3", "insert_ret_n2", "remove_ret_n3", "rkt_ret_n3", "clear_n3", "hist2_1"],
     "C02": ["obs_lpm_n3", "obs_lpm_n4", "obs_lpm_mut_n3", "obs_cover_n3"],
     "C03": ["whole_iter_n3", "whole_iter_mut_n3", "whole_into_iter_n3", "step_iter_n3", "step_iter_mut_n3"],
     "C04": ["insert_len_n2", "remove_len_n3", "rkt_len_n3", "clear_n3", "entry_top0_len_n2", "entry_handle1_len_n2", "clone_n3",
@@ -325,9 +326,9 @@ QUICK = {
     "C15": ["insert_shape_n2", "remove_shape_n[34]", "rkt_shape_n3", "clear_n3", "entry_top0_shape_n2", "retain_lite_struct_n2", "canon_unique_n4"],
     "C16": ["insert_slots_n2", "remove_slots_n[34]", "rkt_slots_n3", "rmchildren_slots_n3", "clear_n3", "entry_handle1_slots_n2"],
     "C17": ["alg_.*"],
-    "C18": ["obs_get_n3", "obs_lpm_n3", "insert_ret_n2", "entry_top0_ret_n2", "entry_handle0_ret_n2", "view_at_ro_n3", "union_whole_n1", "inter_helper0_n3"],
+    "C18": ["obs_get_n3", "obs_lpm_n3", "entry_obs_n3", "insert_ret_n2", "view_at_ro_n3", "union_whole_n1", "inter_helper0_n3"],
     "C19": ["eq_map_n1", "eq_set_n1", "clone_n3"],
-    "C20": ["retain_obs_n2", "alg_u8", "obs_get_n3", "remove_ret_n3", "occ_seq_plain_n2", "occ_seq_after_remove_.*_n2", "view_set_then_remove_n2", "entry_callback0_n2"],
+    "C20": ["retain_obs_n2", "alg_u8", "obs_get_n3", "entry_obs_n3", "remove_ret_n3", "occ_seq_plain_n2", "occ_seq_after_remove_.*_n2", "view_set_then_remove_n2", "entry_callback0_n2"],
     "SELFTEST": ["selftest_fail"],
 }
 import re as _re
@@ -345,7 +346,7 @@ for x in H:
     x["quick_for"] = [p for p in x["props"] if any(_re.fullmatch(pat, x["name"]) for pat in QUICK.get(p, []))]
 # ------------------------------------------------------------------ thorough tier = quick list + deeper instances
 THOROUGH_EXTRA = {
-    "C01": ["obs_get_mut_n3", "obs_set_n3", "rmchildren_ret_n3", "entry_top1_ret_n2", "entry_handle0_ret_n2", "retain_lite_n2", "hist2_0", "remove_shape_n3",
+    "C01": ["obs_get_mut_n3", "obs_set_n3", "rmchildren_ret_n3", "entry_top[01]_ret_n2", "entry_handle[01]_ret_n2", "retain_lite_n2", "hist2_0", "remove_shape_n3",
             "obs_get_n4", "obs_get_mut_n4", "insert_ret_n3", "remove_ret_n4", "entry_top[2-5]_ret_n2", "entry_handle2_ret_n2", "hist2_[23]",
             "collect2", "retain_n2", "retain_lite_n3", "retain_n3"],
     "C02": ["obs_set_n3", "obs_lpm_mut_n4", "obs_cover_n4", "cover_chain_n4", "remove_shape_n3"],
@@ -368,7 +369,7 @@ THOROUGH_EXTRA = {
     "C15": ["rmchildren_shape_n3", "entry_handle1_shape_n2", "view_access2_n3", "hist2_1", "insert_shape_n3", "entry_top1_shape_n2", "retain_struct_n2", "retain_lite_struct_n3", "retain_struct_n3", "rebuild2", "hist2_[023]"],
     "C16": ["entry_top0_slots_n2", "retain_lite_struct_n2", "insert_slots_n3", "entry_top1_slots_n2", "retain_struct_n2", "retain_lite_struct_n3", "hist2_[023]"],
     "C17": [],
-    "C18": ["obs_set_n3", "entry_top1_ret_n2", "whole_iter_n3", "view_access2_n3", "inter_step_ro_n2", "hist2_0", "remove_shape_n3", "obs_(get|lpm|spm|cover)_n4", "insert_ret_n3", "entry_top[2-5]_ret_n2", "entry_handle[12]_ret_n2", "whole_iter_n4", "view_at_(ro|mut)_n4",
+    "C18": ["obs_set_n3", "entry_top[01]_ret_n2", "entry_handle0_ret_n2", "whole_iter_n3", "view_access2_n3", "inter_step_ro_n2", "hist2_0", "remove_shape_n3", "obs_(get|lpm|spm|cover)_n4", "insert_ret_n3", "entry_top[2-5]_ret_n2", "entry_handle[12]_ret_n2", "whole_iter_n4", "view_at_(ro|mut)_n4",
             "children_n3", "covdiff_step_ro_n2", "diff_step_ro_n2", "(union|inter|diff)_helper0_n[24]", "collect2"],
     "C19": ["remove_shape_n3", "eq_map_n[23]", "eq_set_n2", "rebuild2", "collect2"],
     "C20": [],
